@@ -31,7 +31,7 @@ Open Scope string_scope.
 USER_TEXTS = ["USER-TEXT-0", "hello there, what can you do?", "x"]
 BOT_TEXTS = ["BOT-TEXT-0", "Some bot output; with punctuation!"]
 # edge texts: falsy / keyword-like / long / colliding with the refusal; used for user AND bot texts
-LONG_TEXT = "a fairly long text, " * 60
+LONG_TEXT = ("a fairly long text, " * 25).strip()
 EDGE_TEXTS = ["", " ", "0", "None", "False", LONG_TEXT, D.REFUSAL]
 
 
